@@ -25,7 +25,7 @@ Step == /\ l <= Len(Log) /\ l' = l + 1
         /\ LET e == Log[l] IN
            /\ IF e.ev = "paging" /\ Why(e) # "" THEN bad' = Append(bad, [line |-> l, why |-> Why(e)])
               ELSE UNCHANGED bad
-           /\ IF e.ev = "paging" /\ ~e.panic /\ ~Agrees(e) THEN drift' = Append(drift, l) ELSE UNCHANGED drift
+           /\ IF e.ev = "paging" /\ ~e.panic /\ "start0" \notin DOMAIN e /\ ~Agrees(e) THEN drift' = Append(drift, l) ELSE UNCHANGED drift
 Spec == Init /\ [][Step]_vars
 Done == (l = Len(Log) + 1) => PrintT("VERDICT " \o ToJson([consumed |-> l - 1, bad |-> bad, drift |-> drift]))
 =============================================================================
